@@ -102,6 +102,7 @@ type wcfg struct {
 	Interval time.Duration // monitor check interval
 	NPeers   int           // peers in the alphabet
 	NNames   int           // names in the alphabet
+	Pubsub   bool          // monitor world: arrivals are msgpack messages published on the metrics topic (the receive path of the monitor) instead of LogMetric calls
 }
 
 func (c wcfg) kind() string {
@@ -116,7 +117,11 @@ func (c wcfg) String() string {
 	if c.Known {
 		ps = "known"
 	}
-	return c.World + "/peerset-" + ps
+	w := c.World
+	if c.Pubsub {
+		w += "-via-pubsub"
+	}
+	return w + "/peerset-" + ps
 }
 
 // alphabet lists the events applicable in a world.
